@@ -121,10 +121,16 @@ def services_scan_harness(session_given: bool):
         scanner = VObj(services.ServicesScanner, {"config": cfg, "ecu": ecu})
         st: dict[str, Any] = {}
 
+        def processed(I2: Interp, fr: Frame) -> Any:
+            """number of service ids handled so far - the same notion for the counter loop
+            (`sid` is the last id handled) and for a `for sid in range(...)` loop"""
+            if "__k0" in fr.env:
+                return models.as_int(I2, fr.env["__k0"])
+            return models.as_int(I2, fr.env["sid"]) + 1
+
         def havoc(I2: Interp, fr: Frame) -> None:
-            sid = I2.fresh_int("sid", -1, 0xFE)
-            fr.env["sid"] = sid
-            st["sid0"] = sid.t
+            if "__k0" not in fr.env:
+                fr.env["sid"] = I2.fresh_int("sid", -1, 0xFE)
             st["cr0"] = I2.fresh_bool("clean0")
             fr.env["clean_returns"] = st["cr0"]
             fr.env["result"] = VSymMap(z3.Int("n_res"), lambda j: VInt(z3.Int("unused")),
@@ -139,13 +145,14 @@ def services_scan_harness(session_given: bool):
                 fr.poison.add(n)
 
         def inv(I2: Interp, fr: Frame) -> list[tuple[str, Any]]:
-            sid = models.as_int(I2, fr.env["sid"])
-            out = [("service-id-in-range", z3.And(sid >= -1, sid <= 0xFF))]
+            done = processed(I2, fr)
+            out = [("service-id-in-range", z3.And(done >= 0, done <= 0x100))]
+            if I2.ghost["__loop_phase"] == "assume":
+                st["p0"] = done
             if I2.ghost["__loop_phase"] != "preserved":
                 return out
-            s0 = st["sid0"]
-            cur = s0 + 1
-            out.append(("advances-by-exactly-one-service-id", sid == cur))
+            cur = st["p0"]  # the id this iteration handles
+            out.append(("advances-by-exactly-one-service-id", done == cur + 1))
             probes = I2.ghost["probes"]
             writes = I2.ghost.get("map_writes", [])
             respid = (cur / 64) % 2 == 1
@@ -187,7 +194,7 @@ def services_scan_harness(session_given: bool):
             return out
 
         def variant(I2: Interp, fr: Frame) -> Any:
-            return 0xFF - models.as_int(I2, fr.env["sid"])
+            return 0x100 - processed(I2, fr)
         I.ex.loop_contracts[("ServicesScanner.perform_scan", 0)] = loops.LoopContract(
             havoc, inv, variant)
         try:
@@ -195,7 +202,7 @@ def services_scan_harness(session_given: bool):
         except PyExc as e:
             I.fail("V-perform_scan-does-not-raise", e.exc.cls.__name__)
             return
-        if "sid0" not in st:
+        if "p0" not in st:
             return
         res, clean = r.items
         I.prove("V-returns-the-accumulated-result", z3.BoolVal(res is st["result"]))
@@ -204,7 +211,7 @@ def services_scan_harness(session_given: bool):
                     z3.Not(I.truth(clean)) if not isinstance(I.truth(clean), bool)
                     else z3.BoolVal(not I.truth(clean)))
         else:
-            I.prove("V-scan-ends-after-service-id-0xFF", st["sid0"] == 0xFF)
+            I.prove("V-scan-ends-after-service-id-0xFF", st["p0"] == 0x100)
     return harness
 
 
